@@ -1,6 +1,6 @@
 CONSTANTS
   Defects = {"ce_on_attachment"}
-  Family = "names"
+  Family = "names_small"
   Deep = FALSE
 INIT Init
 NEXT Next
